@@ -34,10 +34,13 @@ FLAVOURS = {
 }
 
 LIBS = ["lib/stdlib.cpp", "lib/parsers.cpp"]
+RUNNER_SRCS = sorted("runner/" + f for f in os.listdir(os.path.join(VERIF, "runner")) if f.endswith(".cpp"))
 TARGETS = {
     "fuzz_parse": dict(flavour="asan", srcs=LIBS + ["fuzz/parse.cpp"], ld=["-fsanitize=fuzzer"]),
     "parse_oracle": dict(flavour="asan", srcs=LIBS + ["fuzz/parse.cpp", "fuzz/standalone_main.cpp"]),
     "parse_depth_plain": dict(flavour="plain", srcs=LIBS + ["fuzz/parse.cpp", "fuzz/standalone_main.cpp"]),
+    "runner": dict(flavour="asan", srcs=LIBS + RUNNER_SRCS),
+    "collide": dict(flavour="plain", srcs=["tools_cpp/collide.cpp"]),
 }
 
 
